@@ -141,6 +141,13 @@ func TestC18(t *testing.T) {
 			}
 			chain := strings.Join(calls, " | ")
 			form := gen.Uniform(0, 3).Draw(t, "stmt-form")
+			bodyAll := &body
+			var body strings.Builder // this call chain and its prints; possibly wrapped into a block that runs once
+			wrap := 0
+			if gen.Uniform(0, 2).Draw(t, "wrapped") == 0 {
+				wrap = gen.Uniform(1, 5).Draw(t, "wrap-form")
+				r.Class(fmt.Sprintf("wrapped:%d", wrap))
+			}
 			switch form {
 			case 0:
 				body.WriteString(chain + "\n")
@@ -161,6 +168,7 @@ func TestC18(t *testing.T) {
 				r.Class("capture")
 			}
 			r.Class(fmt.Sprintf("pipeline-%d", plen))
+			bodyAll.WriteString(wrapInBlock(body.String(), wrap, s))
 		}
 		body.WriteString("print(\"end\")\n") // the script's own exit status is then that of print, not of the last probe
 		expOut += "end\n"
